@@ -4,6 +4,7 @@ import (
 	"context"
 
 	"github.com/relab/gorums/ordering"
+	"google.golang.org/protobuf/proto"
 	"google.golang.org/protobuf/reflect/protoreflect"
 )
 
@@ -52,7 +53,9 @@ func (c RawConfiguration) AsyncCall(ctx context.Context, d QuorumCallData) *Asyn
 	for _, n := range c {
 		msg := d.Message
 		if d.PerNodeArgFn != nil {
-			msg = d.PerNodeArgFn(d.Message, n.id)
+			// the per-node function gets a copy of its own: it may fill in the
+			// request and return it, and the messages are marshaled later.
+			msg = d.PerNodeArgFn(proto.Clone(d.Message), n.id)
 			if !msg.ProtoReflect().IsValid() {
 				expectedReplies--
 				continue // don't send if no msg
